@@ -1,4 +1,4 @@
 SPECIFICATION Spec
-CONSTANTS MaxDim = 2  Depth = 3  Emit = TRUE
+CONSTANTS MaxDim = 2  Depth = 3  FullInit = FALSE  Emit = TRUE
 INVARIANTS EmitCase
 CHECK_DEADLOCK FALSE
